@@ -58,7 +58,7 @@ func c17NameAndDomainPatterns(c *Ctx) {
 	}
 	n := 400
 	if c.Thorough() {
-		n = 6000
+		n = 2500
 	}
 	for i := 0; i < n; i++ {
 		e := build(nil)
